@@ -1101,7 +1101,7 @@ func ruleOpDefinesAll(c *Ctx, r *Report) {
 		D := call.Block()
 		// innermost loop header: a block dominating D that D can reach again
 		var H *ssa.BasicBlock
-		for _, b := range op.Blocks {
+		for _, b := range blocksOf(op) {
 			back := false
 			for _, p := range b.Preds {
 				if b.Dominates(p) {
@@ -1203,7 +1203,7 @@ func ruleOpDefinesAll(c *Ctx, r *Report) {
 // H, that have a successor outside the loop.
 func loopEarlyExits(fn *ssa.Function, anchor *ssa.BasicBlock) (*ssa.BasicBlock, []*ssa.BasicBlock) {
 	var H *ssa.BasicBlock
-	for _, b := range fn.Blocks {
+	for _, b := range blocksOf(fn) {
 		back := false
 		for _, p := range b.Preds {
 			if b.Dominates(p) {
@@ -1220,13 +1220,13 @@ func loopEarlyExits(fn *ssa.Function, anchor *ssa.BasicBlock) (*ssa.BasicBlock, 
 		return nil, nil
 	}
 	in := map[*ssa.BasicBlock]bool{H: true}
-	for _, b := range fn.Blocks {
+	for _, b := range blocksOf(fn) {
 		if b != H && H.Dominates(b) && reachableFromAvoiding(b, H, nil) {
 			in[b] = true
 		}
 	}
 	var exits []*ssa.BasicBlock
-	for _, b := range fn.Blocks {
+	for _, b := range blocksOf(fn) {
 		if !in[b] || b == H {
 			continue
 		}
@@ -1269,7 +1269,7 @@ func loopIterationSkips(fn *ssa.Function, anchor *ssa.BasicBlock, must map[*ssa.
 		}
 		return false
 	}
-	for _, b := range fn.Blocks {
+	for _, b := range blocksOf(fn) {
 		back := false
 		for _, p := range b.Preds {
 			if b.Dominates(p) {
@@ -1405,7 +1405,7 @@ func ruleCommaFixed(c *Ctx, r *Report) {
 	var offending ssa.Instruction
 	dep := ""
 	found := false
-	for _, b := range fn.Blocks {
+	for _, b := range blocksOf(fn) {
 		iff, ok := b.Instrs[len(b.Instrs)-1].(*ssa.If)
 		if !ok {
 			continue
@@ -1539,7 +1539,7 @@ func ruleDiscontiguousIndep(c *Ctx, r *Report) {
 		})
 	}
 	// also conditions evaluated in the && chain leading to the error block
-	for _, b := range flush.Blocks {
+	for _, b := range blocksOf(flush) {
 		if cnd := ifCond(b); cnd != nil && reachableFromAvoiding(b, errRet.Block(), nil) && b.Dominates(errRet.Block()) {
 			dataSlice(cnd, func(v ssa.Value) bool {
 				if ld, ok := v.(*ssa.UnOp); ok && ld.Op == token.MUL {
@@ -1683,7 +1683,7 @@ func ruleBarInfixOnly(c *Ctx, r *Report) {
 	infixV, _ := constInt(infixK.Value)
 	// the arm: the successor taken when <name> == atomBar
 	var entry *ssa.BasicBlock
-	for _, b := range fn.Blocks {
+	for _, b := range blocksOf(fn) {
 		bo, ok := ifCond(b).(*ssa.BinOp)
 		if !ok || (bo.Op != token.EQL && bo.Op != token.NEQ) {
 			continue
@@ -1837,7 +1837,7 @@ func ruleValidateWhole(c *Ctx, r *Report) {
 	}
 	// loop bodies
 	inLoop := map[*ssa.BasicBlock]bool{}
-	for _, h := range fn.Blocks {
+	for _, h := range blocksOf(fn) {
 		back := false
 		for _, p := range h.Preds {
 			if h.Dominates(p) {
@@ -1847,7 +1847,7 @@ func ruleValidateWhole(c *Ctx, r *Report) {
 		if !back {
 			continue
 		}
-		for _, b := range fn.Blocks {
+		for _, b := range blocksOf(fn) {
 			if b != h && h.Dominates(b) && reachableFromAvoiding2(b, h) {
 				inLoop[b] = true
 			}
